@@ -774,7 +774,9 @@ def apply_edit(sg, root, retired):
                 fields.insert(r.randrange(len(fields) + 1), new_opt_field(sg, idx))
                 return new, f"add optional field at new index {idx}"
             if kind == "add_gap":
-                gaps = [i for i in range(max(used) if used else 0) if i not in used]
+                # (indices of map-encoded bodies go up to 2^32-1: never enumerate the whole range)
+                hi = max(used) if used else 0
+                gaps = [i for i in range(min(hi, 600)) if i not in used] + [i for i in (255, 256, 65535, 65536) if 600 <= i < hi and i not in used]
                 if not gaps: continue
                 idx = r.choice(gaps)
                 fields.insert(r.randrange(len(fields) + 1), new_opt_field(sg, idx))
